@@ -287,7 +287,7 @@ class Pattern(Interp):
         j = self.jn(*fl)
         if j.lvl < RAW:
             return j
-        if len(ops) == 1 and isinstance(ops[0], (ast.Eq, ast.NotEq)):
+        if len(ops) == 1 and isinstance(ops[0], (ast.Eq, ast.NotEq)) and not getattr(self, "strict_values", False):
             a, b = vals
             other = None
             if isinstance(b, PV) and b.lvl == CLEAN and b.const is not NOCONST and b.const is not None and b.const == 0:
@@ -305,7 +305,7 @@ class Pattern(Interp):
                         self.declass.add((ctx.qname, norm(n)[:120]))
                         # provenance created by the elementwise expression itself is discharged
                         return PV(PAT, frozenset(p for p in s.prov if not self._within(p, n, ctx)))
-        if len(ops) == 1 and isinstance(ops[0], (ast.Gt, ast.Lt)):
+        if len(ops) == 1 and isinstance(ops[0], (ast.Gt, ast.Lt)) and not getattr(self, "strict_values", False):
             # |x| > 0 (0 < |x|) is x != 0: an ordered comparison that still reads only the zero pattern
             a, b = vals if isinstance(ops[0], ast.Gt) else (vals[1], vals[0])
             if isinstance(b, PV) and b.lvl == CLEAN and b.const is not NOCONST and b.const is not None and b.const == 0 and not isinstance(b.const, bool):
